@@ -1,6 +1,6 @@
 From Coq Require Import ZArith List String.
 From DRX Require Import Py.PyBytes Py.Val.
-From DRX Require Model.ScoreIO Model.RiffIO Model.IndexIO Model.XtractIO Model.SndIO Model.VwscIO.
+From DRX Require Model.ScoreIO Model.RiffIO Model.IndexIO Model.XtractIO Model.SndIO Model.VwscIO Model.ClutIO.
 Import ListNotations.
 Open Scope string_scope.
 
@@ -21,7 +21,11 @@ Definition table : list (string * (val -> val)) := [
   ("parse_vwcf", Model.IndexIO.run_parse_vwcf);
   ("extract", Model.XtractIO.run_extract);
   ("snd_to_sampled", Model.SndIO.run_snd_to_sampled);
-  ("parse_vwsc_file", Model.VwscIO.run_parse_vwsc_file)
+  ("parse_vwsc_file", Model.VwscIO.run_parse_vwsc_file);
+  ("clut2palette", Model.ClutIO.run_clut2palette);
+  ("clut2rgb", Model.ClutIO.run_clut2rgb);
+  ("write_color_palette", Model.ClutIO.run_write_color_palette);
+  ("get_palette_name", Model.ClutIO.run_get_palette_name)
 ].
 
 Fixpoint lookup (n : string) (t : list (string * (val -> val))) : option (val -> val) :=
